@@ -1,8 +1,8 @@
 package sx
 
 import (
-	"go/types"
 	"go/token"
+	"go/types"
 
 	"golang.org/x/tools/go/ssa"
 )
